@@ -31,7 +31,7 @@ from segvc.unit import FunctionUnit, LoopSpec
 IT = "anyio/itertools.py"
 FN = "anyio/functools.py"
 SRC = DequeT(OBJ)  # the source iterator: what is still to come
-register_class("GenOut", {"out": ArrT(INT, OBJ), "n": INT, "pos": ArrT(INT, INT), "rank": ArrT(INT, INT), "last": INT}, kind="env")
+register_class("GenOut", {"out": ArrT(INT, OBJ), "n": INT, "pos": ArrT(INT, INT), "rank": ArrT(INT, INT), "last": INT, "short": BOOL}, kind="env")
 OUT = z3.Int("generator_output")
 APP = z3.Function("APP", z3.IntSort(), z3.IntSort(), z3.IntSort())  # the binary callback
 APP1 = z3.Function("APP1", z3.IntSort(), z3.IntSort())  # a unary callback (starmap on the element)
@@ -164,7 +164,7 @@ class IterUnit(FunctionUnit):
     def after_resume(self, ip, what, payload):
         # A-private-iterator: the source, the output record and the local state are this generator's own
         h, b = H(ip.st), self.before
-        for key in [(SRC.cls, "lo"), (SRC.cls, "hi"), (SRC.cls, "data"), ("GenOut", "out"), ("GenOut", "n"), ("GenOut", "pos"), ("GenOut", "rank"), ("GenOut", "last")]:
+        for key in [(SRC.cls, "lo"), (SRC.cls, "hi"), (SRC.cls, "data"), ("GenOut", "out"), ("GenOut", "n"), ("GenOut", "pos"), ("GenOut", "rank"), ("GenOut", "last"), ("GenOut", "short")]:
             ip.st.assume(h.arr(*key) == b.arr(*key))
         ip.st.assume(h.arr("$", "alloc") == b.arr("$", "alloc"))
 
@@ -1425,3 +1425,188 @@ class CycleUnit(GenUnit):
 
 
 UNITS += [CycleUnit]
+
+
+# ---- batched ----------------------------------------------------------------------------------------------------------------------
+# specification: the batches are consecutive slices of the input: batch 0 starts at input 0, every batch starts where the previous
+# one ended, has exactly n elements, except that the last one may be shorter (1 .. n-1 elements) when the input ends - then nothing
+# follows; strict=True turns a short last batch into ValueError; n < 1 is ValueError.  Checked as a step obligation at every yield.
+
+
+class BatchTuple:
+    """tuple(batch): the contents of the list at that moment (object, bounds, data snapshot)"""
+
+    def __init__(self, ref, lo, hi, data):
+        self.ref, self.lo, self.hi, self.data = ref, lo, hi, data
+
+
+def batch_is_slice(u, h, ref, start, k):
+    d = h.dq(SAVED.cls, ref)
+    q = z3.Int(h.st.uniq("q"))
+    return z3.And(ref > 0, ref != u.src.t, z3.Select(h.arr("$", "alloc"), ref), d.hi - d.lo == k, forall([q], z3.Implies(z3.And(d.lo <= q, q < d.hi), z3.Select(d.data, q) == u.x(start + q - d.lo)), patterns=[z3.Select(d.data, q)]))
+
+
+def batched_outer_inv(ip, env):
+    u = ip.ctx.unit
+    h = H(ip.st)
+    c = h.dq(SRC.cls, u.src.t).lo - u.lo0
+    return [("everything_consumed_so_far_has_been_yielded_in_full_batches", z3.And(u.nb.t >= 1, c >= 0, c <= u.n, last_pos(h) == c, z3.Not(h.f("GenOut", "short", OUT)), out_n(h) >= 0, src_unchanged(u, h)))]
+
+
+def batched_inner_inv(ip, env):
+    u = ip.ctx.unit
+    h = H(ip.st)
+    c = h.dq(SRC.cls, u.src.t).lo - u.lo0
+    k = ip.ctx.loop_k
+    batch = ip.term(env.vars["batch"], SAVED)
+    return [("the_batch_holds_the_inputs_consumed_since_the_previous_batch_ended", z3.And(u.nb.t >= 1, 0 <= k, k <= u.nb.t, c == last_pos(h) + k, c <= u.n, last_pos(h) >= 0, z3.Not(h.f("GenOut", "short", OUT)), out_n(h) >= 0, batch_is_slice(u, h, batch, last_pos(h), k), src_unchanged(u, h)))]
+
+
+class BatchedUnit(GenUnit):
+    funcname = "batched"
+
+    def __init__(self):
+        super().__init__()
+        self.globals = dict(self.globals)
+        self.globals["tuple"] = Builtin("tuple", lambda ip, x: self.snapshot_tuple(ip, x))
+
+    def snapshot_tuple(self, ip, x):
+        st = ip.st
+        if not (isinstance(x, Sym) and x.ty is SAVED):
+            raise Unsupported("tuple() of something that is not the batch list")
+        cn = SAVED.cls
+        return BatchTuple(x.t, st.get(cn, "lo", x.t), st.get(cn, "hi", x.t), st.get(cn, "data", x.t))
+
+    def make_args(self, ip):
+        self.new_source(ip)
+        self.gen_entry(ip)
+        ip.st.put("GenOut", "last", OUT, z3.IntVal(0))
+        ip.st.put("GenOut", "short", OUT, z3.BoolVal(False))
+        self.nb = Sym(z3.Int("n"), INT)
+        self.strict = ip.ctx.decide(2, "strict") == 1
+        return [self.src, self.nb], {"strict": self.strict}
+
+    def make_list(self, ip, elems):
+        if elems:
+            raise Unsupported("non-empty list literal")
+        return lib.new_empty(ip, SAVED)
+
+    def do_yield(self, ip, v):
+        st = ip.st
+        h = H(st)
+        if not isinstance(v, BatchTuple):
+            ip.ctx.fail("batched/yield:every_yielded_value_is_a_tuple_of_the_current_batch", "post", "a value that is not tuple(batch) was yielded")
+            return None
+        last = st.get("GenOut", "last", OUT)
+        ln = v.hi - v.lo
+        c = h.dq(SRC.cls, self.src.t).lo - self.lo0
+        q = z3.Int(st.uniq("q"))
+        contents = forall([q], z3.Implies(z3.And(v.lo <= q, q < v.hi), z3.Select(v.data, q) == self.x(last + q - v.lo)), patterns=[z3.Select(v.data, q)])
+        exhausted = h.dq(SRC.cls, self.src.t).lo == self.hi0
+        ip.ctx.oblige(
+            "batched/yield:every_batch_is_the_next_n_inputs_in_order_only_the_last_one_may_be_shorter_and_nothing_follows_it",
+            z3.And(z3.Not(st.get("GenOut", "short", OUT)), contents, last + ln == c, z3.Or(ln == self.nb.t, z3.And(1 <= ln, ln < self.nb.t, exhausted, z3.BoolVal(not self.strict)))),
+            "post",
+        )
+        st.put("GenOut", "short", OUT, ln != self.nb.t)
+        st.put("GenOut", "last", OUT, last + ln)
+        n_out = st.get("GenOut", "n", OUT)
+        st.put("GenOut", "n", OUT, n_out + 1)
+        return None
+
+    def after_resume(self, ip, what, payload):
+        super().after_resume(ip, what, payload)
+        h, b = H(ip.st), self.before
+        for key in [(SAVED.cls, "lo"), (SAVED.cls, "hi"), (SAVED.cls, "data"), ("GenOut", "short")]:
+            ip.st.assume(h.arr(*key) == b.arr(*key))
+
+    def loop_spec(self, qualname, ordinal):
+        if ordinal == 0:
+            return LoopSpec(batched_outer_inv, modifies=None, local_types={"batch": SAVED})
+        return LoopSpec(batched_inner_inv, modifies=None, local_types={"batch": SAVED})
+
+    def on_exit(self, ip, pre, exc, ret):
+        h = H(ip.st)
+        nm = "batched"
+        c = h.dq(SRC.cls, self.src.t).lo - self.lo0
+        if exc is not None:
+            name = exc.pycls.__name__ if exc.pycls is not None else "sym"
+            if name == "CancelledError":
+                return
+            short_tail = z3.And(self.nb.t >= 1, c == self.n, last_pos(h) < c, z3.BoolVal(self.strict))
+            ip.ctx.oblige(f"{nm}/post:ValueError_exactly_for_n_below_one_or_a_short_last_batch_in_strict_mode", z3.And(z3.BoolVal(name == "ValueError"), z3.Or(self.nb.t < 1, short_tail)), "post")
+            return
+        ip.ctx.oblige(f"{nm}/post:ends_when_the_whole_input_has_been_batched", z3.And(self.nb.t >= 1, c == self.n, last_pos(h) == self.n), "post")
+
+
+UNITS += [BatchedUnit]
+
+
+# ---- starmap ------------------------------------------------------------------------------------------------------------------
+# out[j] = function(*x(j)): the j-th result is the callback applied to the unpacked j-th input element.  The inner async
+# comprehension `[e async for e in _iterate(args_iterable)]` is abstracted to "the elements of args_iterable, in order" (the meaning
+# of a comprehension, A-comprehension): an opaque argument pack PACK(x(j)); the callback is an uninterpreted function of the pack.
+
+import ast as _ast  # noqa: E402
+
+
+class ArgPack:
+    def __init__(self, t):
+        self.t = t
+
+
+class Unpacked(ArgPack):
+    """*args of an argument pack at a call site"""
+
+
+def starmap_inv(ip, env):
+    u = ip.ctx.unit
+    h = H(ip.st)
+    i = u.consumed(ip)
+    j = z3.Int(ip.st.uniq("j"))
+    ry = ip.truth(env.vars["result_yielded"])
+    ry = z3.BoolVal(ry) if isinstance(ry, bool) else ry
+    return [("one_result_per_input_element_so_far_in_order", z3.And(i >= 0, ip.ctx.loop_k <= u.hi0, out_n(h) == i, ry == (i > 0), forall([j], z3.Implies(z3.And(0 <= j, j < i), out_at(h, j) == APP1(u.x(j))), patterns=[out_at(h, j)]), u.out_inv_common(h)))]
+
+
+class StarmapUnit(GenUnit):
+    funcname = "starmap"
+    trusted = ("E1", "A-pure", "A-private-iterator", "A-comprehension")
+
+    def make_args(self, ip):
+        self.new_source(ip)
+        self.gen_entry(ip)
+        fn = Builtin("function", lambda ip, *a: AwaitableVal("contract", lambda: self.apply(ip, a)))
+        return [fn, self.src], {}
+
+    def apply(self, ip, a):
+        if len(a) != 1 or not isinstance(a[0], Unpacked):
+            ip.ctx.fail("starmap/call:the_callback_receives_exactly_the_unpacked_element", "post", "the callback was not called with *args of the current element")
+            return Sym(ip.st.fresh("res", z3.IntSort()), OBJ)
+        return Sym(APP1(a[0].t), OBJ)
+
+    def list_comp(self, ip, e, env, mp):
+        ok = isinstance(e, _ast.ListComp) and len(e.generators) == 1 and e.generators[0].is_async and not e.generators[0].ifs and isinstance(e.elt, _ast.Name) and isinstance(e.generators[0].target, _ast.Name) and e.elt.id == e.generators[0].target.id
+        if not ok:
+            raise Unsupported("a comprehension other than [e async for e in <iterable>]")
+        it = ip.eval(e.generators[0].iter, env, mp)  # _iterate(args_iterable) -> the element itself
+        return ArgPack(ip.term(it, OBJ))
+
+    def unpack_star(self, ip, v):
+        if isinstance(v, ArgPack):
+            return [Unpacked(v.t)]
+        return NotImplemented
+
+    def loop_spec(self, qualname, ordinal):
+        return LoopSpec(starmap_inv, modifies={("GenOut", "out"), ("GenOut", "n"), ("GenOut", "pos")}, local_types={"result_yielded": BOOL, "args_iterable": OBJ})
+
+    def on_exit(self, ip, pre, exc, ret):
+        h = H(ip.st)
+        j = z3.Int(ip.st.uniq("j"))
+        if exc is not None:
+            ip.ctx.oblige("starmap/post:never_raises_by_itself", z3.BoolVal(exc.pycls is not None and exc.pycls.__name__ == "CancelledError"), "post")
+            return
+        ip.ctx.oblige("starmap/post:yields_the_callback_applied_to_every_unpacked_element_in_order", z3.And(out_n(h) == self.n, forall([j], z3.Implies(z3.And(0 <= j, j < out_n(h)), out_at(h, j) == APP1(self.x(j))), patterns=[out_at(h, j)])), "post")
+
+
+UNITS += [StarmapUnit]
